@@ -258,7 +258,7 @@ func (r *report) evaluate(hs []*harnessInfo, stats []*interp.HarnessStats, rb *r
 			fmt.Printf("VIOLATION property=%s replay=%s\n", r.prop, v.Replay)
 			fmt.Printf("  harness=%s %s %q %s native=%s\n", v.Harness, v.Kind, v.Label, firstLine(v.Msg), v.Native)
 		case "known":
-			fmt.Printf("KNOWN-FINDING: property=%s %s\n", r.prop, r.knownText[v.KnownKey])
+			fmt.Printf("KNOWN-FINDING: %s\n", r.knownText[v.KnownKey])
 		case "spurious":
 			fmt.Printf("INCONCLUSIVE property=%s harness=%s %s %q: solver model did not reproduce natively (%s) replay=%s\n",
 				r.prop, v.Harness, v.Kind, v.Label, v.Native, v.Replay)
